@@ -524,7 +524,13 @@ impl Pool {
                 who,
                 pair,
                 &p::ExecuteMsg::ProvideLiquidity {
-                    assets: [Asset { info: nat("ua"), amount: a.into() }, Asset { info: nat("ub"), amount: bq.into() }],
+                    // the order in which the caller lists the assets must not matter: reverse it for a
+                    // deterministic half of the deposits
+                    assets: if (a ^ bq) & 1 == 1 {
+                        [Asset { info: nat("ub"), amount: bq.into() }, Asset { info: nat("ua"), amount: a.into() }]
+                    } else {
+                        [Asset { info: nat("ua"), amount: a.into() }, Asset { info: nat("ub"), amount: bq.into() }]
+                    },
                     slippage_tolerance: None,
                     receiver: None,
                 },
